@@ -75,7 +75,7 @@ func vfParamSpec(tag string, maxLen int, nameChar string) (vfParam, string) {
 	return p, text
 }
 
-func vfParamsHarness(nParams, maxLen int) {
+func vfParamsHarness(nParams, maxLen int, roundTrip bool) {
 	names := []string{"P", "Q"}
 	var specs []vfParam
 	var texts []string
@@ -106,6 +106,10 @@ func vfParamsHarness(nParams, maxLen int) {
 			vfAssert(os.Getenv(strconv.Itoa(i+1)) == want, "C11.params/positional-parameter-has-exactly-the-given-value")
 		}
 	}
+	if !roundTrip {
+		vfReach("end")
+		return
+	}
 	// retry / restart: the recorded parameter string (model.Params) is parsed again
 	recorded := Params(params)
 	for _, p := range specs {
@@ -130,7 +134,9 @@ func vfParamsHarness(nParams, maxLen int) {
 	vfReach("end")
 }
 
-func VerifHarness_C11_paramsL1()  { vfParamsHarness(1, 1) }
-func VerifHarness_C11_paramsL2()  { vfParamsHarness(1, 2) }
-func VerifHarness_C11_paramsL3()  { vfParamsHarness(1, 3) }
-func VerifHarness_C11_params2x1() { vfParamsHarness(2, 1) }
+func VerifHarness_C11_paramsL1() { vfParamsHarness(1, 1, false) }
+func VerifHarness_C11_paramsL2() { vfParamsHarness(1, 2, false) }
+func VerifHarness_C11_paramsL3() { vfParamsHarness(1, 3, false) }
+func VerifHarness_C10_paramsL1() { vfParamsHarness(1, 1, true) }
+func VerifHarness_C10_paramsL2() { vfParamsHarness(1, 2, true) }
+func VerifHarness_C10_paramsL3() { vfParamsHarness(1, 3, true) }
